@@ -1,0 +1,68 @@
+//go:build verif
+
+package qnet
+
+import (
+	"sort"
+	"time"
+
+	"qchen.fun/fatchoy"
+)
+
+// VerifSweep runs the expiry sweep of the reaper goroutine at a chosen instant
+// (the time-to-live and the sweep period are hard-wired to 60 s / 3 s).
+func (c *RpcClient) VerifSweep(now time.Time) {
+	c.reapTimeout(now)
+}
+
+// VerifPending returns the sequence numbers in the pending table (sorted) and the
+// number of expired contexts waiting for ReapTimeout.
+func (c *RpcClient) VerifPending() (seqs []uint16, expired int) {
+	c.guard.Lock()
+	defer c.guard.Unlock()
+	for seq := range c.pendingCtx {
+		seqs = append(seqs, seq)
+	}
+	sort.Slice(seqs, func(i, j int) bool { return seqs[i] < seqs[j] })
+	return seqs, len(c.expired)
+}
+
+// VerifCounter reads the sequence counter; VerifSetCounter places it (e.g. just below the
+// 16-bit wrap) without issuing tens of thousands of calls.
+func (c *RpcClient) VerifCounter() uint16 {
+	c.guard.Lock()
+	defer c.guard.Unlock()
+	return c.counter
+}
+
+func (c *RpcClient) VerifSetCounter(v uint16) {
+	c.guard.Lock()
+	defer c.guard.Unlock()
+	c.counter = v
+}
+
+// VerifSetDeadline replaces the deadline of the pending call with this sequence number.
+func (c *RpcClient) VerifSetDeadline(seq uint16, deadline time.Time) bool {
+	c.guard.Lock()
+	defer c.guard.Unlock()
+	if ctx, found := c.pendingCtx[seq]; found {
+		ctx.deadline = deadline
+		return true
+	}
+	return false
+}
+
+// VerifDeadline reads the deadline of the pending call with this sequence number.
+func (c *RpcClient) VerifDeadline(seq uint16) (time.Time, bool) {
+	c.guard.Lock()
+	defer c.guard.Unlock()
+	if ctx, found := c.pendingCtx[seq]; found {
+		return ctx.deadline, true
+	}
+	return time.Time{}, false
+}
+
+// VerifAck returns the packet a completed call was completed with.
+func (r *RpcContext) VerifAck() fatchoy.IPacket {
+	return r.ack
+}
